@@ -94,9 +94,19 @@ Definition mkdoc (raw : rawdoc) (ps : list dparam) (r : option (list dtype)) : d
 Definition same_denotation (scope : list string) (d d' : dtype) : Prop :=
   exists t t', eval scope (dt_expr d) = Ok t /\ eval scope (dt_expr d') = Ok t' /\ ty_eqb t' t = true.
 
-(* The new documented type is any well-formed type expression of the vocabulary whose denotation
+(* a documented type Python can evaluate in the scope of the function, or that fails because it
+   mentions a name that is not defined (what is excluded: texts that are not expressions, wrong
+   numbers of type arguments, subscripts of things that are not generic ... - not types at all) *)
+Definition evaluable (scope : list string) (d : dtype) : bool :=
+  match eval scope (dt_expr d) with
+  | Ok _ => true
+  | Raise e => derives e NameErrorC
+  end.
+
+(* The new documented type is any type expression Python can evaluate whose denotation
    differs from the old one: that covers the replacement of one sub-expression at any nesting
-   depth (`plug` below) and also any larger change.                                              *)
+   depth (`plug` below) and also any larger change.  Every well-formed type expression of the
+   vocabulary (`wf_expr`) is evaluable (Proofs/DocstringWf.v).                                    *)
 Inductive one_edit (scope : list string) : docT -> docT -> Prop :=
 | E_drop_param : forall raw l1 p l2 r,
     one_edit scope (mkdoc raw (l1 ++ p :: l2) r) (mkdoc raw (l1 ++ l2) r)
@@ -105,17 +115,24 @@ Inductive one_edit (scope : list string) : docT -> docT -> Prop :=
 | E_rename_param : forall raw l1 n n' ot l2 r, n' <> n ->
     one_edit scope (mkdoc raw (l1 ++ (n, ot) :: l2) r) (mkdoc raw (l1 ++ (n', ot) :: l2) r)
 | E_change_type : forall raw l1 n d d' l2 r,
-    wf_expr (dt_expr d') = true -> ~ same_denotation scope d d' ->
+    evaluable scope d' = true -> ~ same_denotation scope d d' ->
     one_edit scope (mkdoc raw (l1 ++ (n, Some d) :: l2) r) (mkdoc raw (l1 ++ (n, Some d') :: l2) r)
 | E_drop_returns : forall raw ps l,
     one_edit scope (mkdoc raw ps (Some l)) (mkdoc raw ps None)
 | E_add_returns : forall raw ps l,
     one_edit scope (mkdoc raw ps None) (mkdoc raw ps (Some l))
 | E_alter_returns : forall raw ps d d',
-    wf_expr (dt_expr d') = true -> ~ same_denotation scope d d' ->
+    evaluable scope d' = true -> ~ same_denotation scope d d' ->
     one_edit scope (mkdoc raw ps (Some [d])) (mkdoc raw ps (Some [d']))
 | E_untype_returns : forall raw ps d,
-    one_edit scope (mkdoc raw ps (Some [d])) (mkdoc raw ps (Some [])).
+    one_edit scope (mkdoc raw ps (Some [d])) (mkdoc raw ps (Some []))
+| E_untype_param : forall raw l1 n d l2 r,
+    one_edit scope (mkdoc raw (l1 ++ (n, Some d) :: l2) r) (mkdoc raw (l1 ++ (n, None) :: l2) r).
+
+(* the one edit on which the implementation leaks a TypeError (open finding C19-untyped-param) *)
+Definition is_untype_param (doc doc' : docT) : Prop :=
+  exists raw l1 n d l2 r,
+    doc = mkdoc raw (l1 ++ (n, Some d) :: l2) r /\ doc' = mkdoc raw (l1 ++ (n, None) :: l2) r.
 
 (* one-hole contexts of type expressions: "at any nesting depth" *)
 Inductive ectx :=
@@ -123,7 +140,9 @@ Inductive ectx :=
 | CSubF (c : ectx) (s : texpr)
 | CSubS (f : texpr) (c : ectx)
 | CTupleAt (l1 : list texpr) (c : ectx) (l2 : list texpr)
-| CListAt (l1 : list texpr) (c : ectx) (l2 : list texpr).
+| CListAt (l1 : list texpr) (c : ectx) (l2 : list texpr)
+| COrL (c : ectx) (b : texpr)
+| COrR (a : texpr) (c : ectx).
 
 Fixpoint plug (c : ectx) (e : texpr) : texpr :=
   match c with
@@ -132,6 +151,8 @@ Fixpoint plug (c : ectx) (e : texpr) : texpr :=
   | CSubS f c => ESub f (plug c e)
   | CTupleAt l1 c l2 => ETuple (l1 ++ plug c e :: l2)
   | CListAt l1 c l2 => EList (l1 ++ plug c e :: l2)
+  | COrL c b => EOr (plug c e) b
+  | COrR a c => EOr a (plug c e)
   end.
 
 (* ---- guards used by the theorems (all boolean, all satisfied by the generated cases) ----------- *)
@@ -141,7 +162,19 @@ Fixpoint ann_ok (t : ty) : bool :=
   match t with
   | TTup _ | TLst _ => false
   | TUnion l => forallb ann_ok l
+  | TPipe l => forallb ann_ok l
   | TGen _ l => forallb ann_ok l
+  | _ => true
+  end.
+
+(* no `X | Y` union anywhere in the annotation *)
+Fixpoint no_pipe (t : ty) : bool :=
+  match t with
+  | TPipe _ => false
+  | TUnion l => forallb no_pipe l
+  | TGen _ l => forallb no_pipe l
+  | TTup l => forallb no_pipe l
+  | TLst l => forallb no_pipe l
   | _ => true
   end.
 
@@ -169,6 +202,9 @@ Definition doc_types (doc : docT) : list dtype :=
 (* every documented parameter has a type *)
 Definition doc_typed (doc : docT) : bool :=
   forallb (fun p => match snd p with Some _ => true | None => false end) (d_params doc).
+
+(* every documented type can be evaluated (or names something undefined) *)
+Definition doc_evaluable (scope : list string) (doc : docT) : bool := forallb (evaluable scope) (doc_types doc).
 
 (* every documented type is a well-formed type expression *)
 Definition doc_wf (doc : docT) : bool := forallb (fun d => wf_expr (dt_expr d)) (doc_types doc).
